@@ -21,7 +21,7 @@ import (
 )
 
 var faultKinds = []string{"server-cut", "write-error", "callback-fails", "exception-anytime", "unknown-packet", "unhandled-packet",
-	"undecodable-block", "surplus-headers"}
+	"undecodable-block", "surplus-headers", "write-error+exception"}
 
 func TestC04FailedQuery(t *testing.T) {
 	st := stats.G()
@@ -80,7 +80,7 @@ func runC04(rt *rapid.T, st *stats.Collector) {
 				steps = steps[:i+1]
 				steps[i].Then = func(cn *simnet.Conn) { cn.FailReads(errors.New("EOF")) }
 			}
-		case "exception-anytime":
+		case "exception-anytime", "write-error+exception":
 			// The whole script is one exception that may arrive at any moment.
 			steps = []simnet.Step{itemStep(Item{Kind: "exception", Exc: []ref.Exception{{Code: 60, Name: "DB::Exception", Message: "boom"}, {Code: 1, Name: "n"}}}, nil, 0, nil)}
 		case "surplus-headers":
@@ -107,8 +107,12 @@ func runC04(rt *rapid.T, st *stats.Collector) {
 	writeErrAfter := rapid.IntRange(0, 600).Draw(rt, "write-error-after-client-bytes")
 	base := g.e.conn.DeliveredBytes()
 	wbase := len(g.e.conn.WrittenBytes())
-	if fault == "write-error" {
+	if fault == "write-error" || fault == "write-error+exception" {
 		g.e.conn.FailWritesAfter(wbase + writeErrAfter)
+	}
+	if rapid.IntRange(0, 3).Draw(rt, "close-returns-error") == 0 {
+		// The transport closes but reports an error from Close (e.g. TLS close_notify on a cut link).
+		g.e.conn.CloseErr = errors.New("close: broken pipe")
 	}
 	ctx, cancel := context.WithCancel(context.Background())
 	g.cancel = cancel
